@@ -261,16 +261,20 @@ def _alphabet_sub(level):
 
 
 def run(ctx):
-    d_full = 2
-    d_sub = 5 if ctx.thorough else 3
-    if ctx.thorough:
-        d_full = 3
     ctx.extra["alphabet"] = {"full": [_opsig([o]) for o in FULL], "sub": [_opsig([o]) for o in SUB]}
     gen = [i for i in INITS if not i.startswith("corpus:")]
     cor = [i for i in INITS if i.startswith("corpus:")]
-    n1 = explorer.explore(ctx, System(gen, _alphabet_full), d_full, name="full-alphabet")
-    explorer.explore(ctx, System(cor, _alphabet_full), d_full - 1, name="full-alphabet/corpus-decks")
-    n2 = explorer.explore(ctx, System(["default", "out_of_order", "non_contiguous", "rich", "names_1_5_3"], _alphabet_sub), d_sub, name="cache-sensitive-subalphabet")
+    irregular = ["out_of_order", "non_contiguous", "names_1_5_3"]
+    if ctx.thorough:
+        explorer.explore(ctx, System(["default", "rich"], _alphabet_full), 3, name="full-alphabet/depth3")
+        explorer.explore(ctx, System(irregular + cor, _alphabet_full), 2, name="full-alphabet/depth2")
+        explorer.explore(ctx, System(irregular, _alphabet_sub), 4, name="cache-sensitive-subalphabet")
+        explorer.explore(ctx, System(["default", "rich"], _alphabet_sub), 3, name="cache-sensitive-subalphabet/other-decks")
+    else:
+        explorer.explore(ctx, System(gen, _alphabet_full), 2, name="full-alphabet")
+        explorer.explore(ctx, System(cor, _alphabet_full), 1, name="full-alphabet/corpus-decks")
+        explorer.explore(ctx, System(["default", "out_of_order", "non_contiguous", "rich", "names_1_5_3"], _alphabet_sub), 3,
+                         name="cache-sensitive-subalphabet")
     single = [op for op, s in ctx.outcomes.items() if len(s) == 0]
     if single:
         from mc.core.run import HarnessError
